@@ -9,7 +9,9 @@ Init == cfg \in Configs /\ inp \in Inputs
 Next == \E c2 \in Configs \ {cfg} : cfg' = c2 /\ UNCHANGED inp
 Spec == Init /\ [][Next]_<<cfg, inp>>
 (* negative control: the specialised integer path routed through a double loses integers above 2^53 *)
-L1(c, x) == IF "NC_INT_VIA_F64" \in DEVS /\ IsSpecialized(c) /\ x.ty = "u64" /\ x.node.v = "18446744073709551615"
+ErrOut == [t |-> "error"]
+L1(c, x) == IF "DEV_SPECIALIZED_NONFINITE_ERROR" \in DEVS /\ IsSpecialized(c) /\ x.ty \in {"f32", "f64"} /\ "special" \in DOMAIN x.node THEN ErrOut   \* as found (F17)
+            ELSE IF "NC_INT_VIA_F64" \in DEVS /\ IsSpecialized(c) /\ x.ty = "u64" /\ x.node.v = "18446744073709551615"
             THEN JIntS("18446744073709551616") ELSE ConvL1(c, x)
 Inv_ImageOfInput == L1(cfg, inp) = Conv0(inp)
 Inv_ConfigIndependent == \A c2 \in Configs : L1(c2, inp) = L1(cfg, inp)
